@@ -263,7 +263,7 @@ func (o *OvsdbServer) Monitor(client *rpc2.Client, args []json.RawMessage, reply
 
 	tableUpdates := make(ovsdb.TableUpdates)
 	for t, request := range request {
-		op := ovsdb.Operation{Op: ovsdb.OperationSelect, Table: t, Columns: request.Columns}
+		op := ovsdb.Operation{Op: ovsdb.OperationSelect, Table: t, Columns: selectColumns(request)}
 		result, _ := transaction.Transact(op)
 		if len(result) == 0 || len(result[0].Rows) == 0 {
 			continue
@@ -315,7 +315,7 @@ func (o *OvsdbServer) MonitorCond(client *rpc2.Client, args []json.RawMessage, r
 
 	tableUpdates := make(ovsdb.TableUpdates2)
 	for t, request := range request {
-		op := ovsdb.Operation{Op: ovsdb.OperationSelect, Table: t, Columns: request.Columns}
+		op := ovsdb.Operation{Op: ovsdb.OperationSelect, Table: t, Columns: selectColumns(request)}
 		result, _ := transaction.Transact(op)
 		if len(result) == 0 || len(result[0].Rows) == 0 {
 			continue
@@ -367,7 +367,7 @@ func (o *OvsdbServer) MonitorCondSince(client *rpc2.Client, args []json.RawMessa
 
 	tableUpdates := make(ovsdb.TableUpdates2)
 	for t, request := range request {
-		op := ovsdb.Operation{Op: ovsdb.OperationSelect, Table: t, Columns: request.Columns}
+		op := ovsdb.Operation{Op: ovsdb.OperationSelect, Table: t, Columns: selectColumns(request)}
 		result, _ := transaction.Transact(op)
 		if len(result) == 0 || len(result[0].Rows) == 0 {
 			continue
@@ -432,4 +432,14 @@ func (o *OvsdbServer) processMonitors(id uuid.UUID, update database.Update) {
 		}
 	}
 	o.monitorMutex.RUnlock()
+}
+
+// selectColumns returns the columns to select for the initial contents of a
+// monitored table: the requested ones plus the row's uuid, or all of them if
+// the request, or its columns, are omitted
+func selectColumns(request *ovsdb.MonitorRequest) []string {
+	if len(request.Columns) == 0 {
+		return nil
+	}
+	return append([]string{"_uuid"}, request.Columns...)
 }
